@@ -115,8 +115,16 @@ def run(ctx):  # noqa: C901
         okdim = bool(dimdef) and same_monomial(("*", (Nn(dimdef[0].value), Nn(dimdef[0].value))), ("n", "dim_lx")) is True
         ctx.ob("R-SHAPE", cb, "local dimension squared == Choi size", okdim, "dim = round(sqrt(dim_lx))" if okdim else "the local dimension is not the square root of the Choi size")
         rets, _ = return_terms(m, cb, inline=False)
-        okv = any(t == ("*", tuple(sorted([("c", Fraction(1, 2)), ("attr", ("n", "sdp"), "value")], key=repr))) for _, _, t in rets)
-        ctx.ob("R-SDP", cb, "value == optimum / 2", okv, "sdp.value / 2" if okv else "scaling changed")
+        half = ("*", tuple(sorted([("c", Fraction(1, 2)), ("attr", ("n", "sdp"), "value")], key=repr)))
+        vals = [(rn_, t) for rn_, _, t in rets if "'value'" in repr(t)]
+        okv = any(t == half for _, t in vals)
+        others = [(rn_, t) for rn_, t in vals if t != half]
+        # a second program (another formulation behind a guard) whose optimum is returned with another scaling cannot be related to the
+        # definition by this analysis: undecided, not accepted
+        ctx.ob("R-SDP", cb, "value == optimum / 2", (None if others else True) if okv else False,
+               "sdp.value / 2" if okv and not others else
+               (f"`{unparse(others[0][0])[:60]}` (line {others[0][0].lineno}) returns the optimum of a different programme / scaling next to the reference SDP: not decidable here"
+                if okv else "scaling changed"), others[0][0] if others else None)
         oks = any(any(kw.arg == "solver" and unparse(kw.value) == "solver" for kw in c.keywords) and any(kw.arg is None and unparse(kw.value) == "kwargs" for kw in c.keywords) for c in sk.solves)
         ctx.ob("R-THREAD", cb, "solver and **kwargs reach solve", oks, "forwarded" if oks else "solver options dropped")
         d = sk.dangling()
